@@ -8,6 +8,7 @@ import (
 	"encoding/binary"
 	"fmt"
 	"os"
+	"strings"
 
 	"github.com/alicebob/sqlittle"
 
@@ -412,6 +413,8 @@ func c15RealFiles(r *ev.Run) {
 		{"utf16be", "PRAGMA encoding='UTF-16be'; CREATE TABLE t(a); INSERT INTO t VALUES('x');", false, true},
 		{"format4", "CREATE TABLE t(a); CREATE INDEX i ON t(a DESC); INSERT INTO t VALUES(1),(2);", false, false},
 		{"legacy-format", "CREATE TABLE t(a); INSERT INTO t VALUES(1),(2);", true, false},
+		// schema format 3 with a DESC primary key and no other index on the table: the DESC is not in effect
+		{"legacy-format-desc-key", "CREATE TABLE t(a); INSERT INTO t VALUES(1),(2); CREATE TABLE w (k TEXT, v, PRIMARY KEY (k DESC)) WITHOUT ROWID; INSERT INTO w VALUES ('a', 1), ('b', 2), ('c', 3), ('d', 4); ALTER TABLE w ADD COLUMN lg DEFAULT 'x';", true, false},
 	}
 	for _, c := range cases {
 		p := dir + "/" + c.name + ".sqlite"
@@ -455,6 +458,17 @@ func c15RealFiles(r *ev.Run) {
 					rows, err3 := SelectAll(h, "t", "a")
 					if err3 != nil || len(rows) != 2 {
 						r.Violation("C15:realfile-misread:"+c.name, fmt.Sprintf("schema-format-%d database: rows=%d err=%v", format, len(rows), err3), art)
+					}
+					if strings.Contains(c.setup, "TABLE w ") {
+						for _, k := range []string{"a", "b", "c", "d"} {
+							var got [][]interface{}
+							err4 := h.PKSelect("w", sqlittle.Key{k}, func(rw sqlittle.Row) { got = append(got, CopyRow(rw)) }, "k", "v")
+							r.Trans(1)
+							if err4 != nil || len(got) != 1 {
+								r.Violation("C15:realfile-misread:"+c.name, fmt.Sprintf("schema-format-%d database: PKSelect(w, %q): %d rows err=%v, SQLite finds the row", format, k, len(got), err4), art)
+								break
+							}
+						}
 					}
 				}
 			}
